@@ -1,6 +1,6 @@
 --------------------------- MODULE Reporter_Trace ---------------------------
 (* C10 binding over recorded histories (projection reporter + event inputs).   *)
-EXTENDS Reporter, Json, TLC, TraceLib
+EXTENDS Reporter, ReporterSM, Json, TLC, TraceLib
 CONSTANT KNOWN
 Trace == ndJsonDeserialize("trace.ndjson")
 VARIABLES l, viol, hist, sel, rep, cap,
@@ -54,7 +54,28 @@ CheckOther(e) ==
   \cup (IF \E r \in DOMAIN rep : r \in DOMAIN PostRep(e) /\ rep[r].jailed /\ ~PostRep(e)[r].jailed /\ e.ev # "UnjailReporter"
         THEN {"ReleaseOnlyByUnjail"} ELSE {})
 
+\* ---- conformance with the constructive selection model (ReporterSM): MODEL:<step> = drift, not a verdict ----
+SV(t) == [s \in DOMAIN t |-> [rep |-> t[s].rep, locked |-> t[s].locked]]
+SMCheck(e) ==
+  LET pre == SV(sel) post == SV(PostSel(e)) IN
+  \* replay of a model behaviour: what the model says about the message (enabled / disabled) is what the chain does
+  (IF "sm" \in DOMAIN e /\ e.sm /\ ~e.ok THEN {"MODEL:EnabledActionRejected_" \o e.ev} ELSE {}) \cup
+  (IF "sm" \in DOMAIN e /\ ~e.sm /\ e.ok THEN {"MODEL:DisabledActionAccepted_" \o e.ev} ELSE {}) \cup
+  IF e.ev = "CreateReporter" THEN (IF (e.ok /\ post = CreateNext(pre, e.who)) \/ (~e.ok /\ post = pre) THEN {} ELSE {"MODEL:CreateReporter"})
+  ELSE IF e.ev = "SelectReporter" THEN
+     (IF ~e.ok THEN (IF post = pre THEN {} ELSE {"MODEL:SelectRejected"})
+      ELSE (IF post = SelectNext(pre, e.who, e.rep) THEN {} ELSE {"MODEL:Select"}) \cup (IF SelectOk(pre, e.who, e.rep, cap) THEN {} ELSE {"MODEL:SelectGuard"}))
+  ELSE IF e.ev = "SwitchReporter" THEN
+     (IF ~e.ok THEN (IF post = pre THEN {} ELSE {"MODEL:SwitchRejected"})
+      ELSE (IF e.who \in DOMAIN pre /\ post = SwitchNext(pre, reported, e.who, e.rep, e.t, e.unbondms) THEN {} ELSE {"MODEL:Switch"})
+           \cup (IF SwitchOk(pre, e.who, e.rep, cap) THEN {} ELSE {"MODEL:SwitchGuard"}))
+  ELSE IF e.ev = "RemoveSelector" THEN
+     (IF ~e.ok THEN (IF post = pre THEN {} ELSE {"MODEL:RemoveRejected"})
+      ELSE (IF post = RemoveNext(pre, e.sel) THEN {} ELSE {"MODEL:Remove"}))
+  ELSE (IF post = pre THEN {} ELSE {"MODEL:Other_" \o e.ev})
+
 Check(e) ==
+  SMCheck(e) \cup
   (IF e.ev = "SubmitValue" THEN CheckSubmit(e)
    ELSE IF e.ev = "SelectReporter" THEN CheckSelect(e)
    ELSE IF e.ev = "SwitchReporter" THEN CheckSwitch(e)
